@@ -438,14 +438,34 @@ class InstanceValue(Object):
         self.cls = cls
 
     @cached_property
-    def _attrs(self):
+    def _assigned(self):
         # type: () -> Attributes
-        attrs = self.cls._attrs.copy()
+        """Attributes assigned through self in methods of the class and of its bases"""
+        attrs = {}  # type: Attributes
+        tables = []
         for b in reversed(self.cls.bases):
             o = b.call(self.ctx)
             if o:
-                attrs.update(o._attrs)
-        attrs.update(self.cls.scope.top.assigns(self.ctx).get(self, {}))
+                tables.append(getattr(o, '_assigned', {}))
+        tables.append(self.cls.scope.top.assigns(self.ctx).get(self, {}))
+        for table in tables:
+            for name, value in iteritems(table):
+                known = attrs.get(name)
+                if isinstance(known, MultiValue) and isinstance(value, MultiValue):
+                    # any of the assignments may be the one executed last
+                    merged = MultiValue(known.values[0])
+                    merged.values = known.values + [v for v in value.values if v not in known.values]
+                    value = merged
+                attrs[name] = value
+        return attrs
+
+    @cached_property
+    def _attrs(self):
+        # type: () -> Attributes
+        # class attributes follow the MRO; only what base instances assign
+        # through self is added, so a base never overrides a subclass method
+        attrs = self.cls._attrs.copy()
+        attrs.update(self._assigned)
         return attrs
 
 
